@@ -24,15 +24,28 @@ def strip_comments(src):
     return re.sub(r"--.*", "", src)
 
 
-def lean_sources():
-    out = []
-    for root, _, files in os.walk(LEAN):
-        if ".lake" in root:
+def lean_sources(module=None):
+    """the project's .lean files; with `module`: only those in its import closure (plus the driver's), so that a
+    half-finished file of an unrelated property cannot fail this property's token audit"""
+    if module is None:
+        out = []
+        for root, _, files in os.walk(LEAN):
+            if ".lake" in root or "Audit" in root:
+                continue
+            for f in files:
+                if f.endswith(".lean"):
+                    out.append(os.path.join(root, f))
+        return out
+    seen, todo = set(), [module, "Main"]
+    while todo:
+        m = todo.pop()
+        f = os.path.join(LEAN, *m.split(".")) + ".lean"
+        if m in seen or not os.path.exists(f):
             continue
-        for f in files:
-            if f.endswith(".lean"):
-                out.append(os.path.join(root, f))
-    return out
+        seen.add(m)
+        for mm in re.findall(r"^\s*(?:public\s+)?import\s+([A-Za-z0-9_.]+)", strip_comments(open(f).read()), flags=re.M):
+            todo.append(mm)
+    return [os.path.join(LEAN, *m.split(".")) + ".lean" for m in sorted(seen)]
 
 
 def proof_step(prop, theorems, module, thorough=False, pre=None):
@@ -45,16 +58,18 @@ def proof_step(prop, theorems, module, thorough=False, pre=None):
             return res
     os.makedirs(os.path.join(LEAN, ".lake"), exist_ok=True)
     lock = ["flock", os.path.join(LEAN, ".lake", "verif-build.lock")]
-    rc, out = sh(lock + ["lake", "build", module])
+    modules = [module] if isinstance(module, str) else list(module)
+    rc, out = sh(lock + ["lake", "build"] + modules)
     if rc != 0:
         res["log"] = out[-4000:]
-        res["failed"] = ["<build> " + module]
+        res["failed"] = ["<build> " + " ".join(modules)]
         return res
     rc, out = sh(lock + ["lake", "build", "drv"])
     if rc != 0:      # the shared driver does not build: infrastructure, not a verdict about this property
         raise RuntimeError("driver build failed:\n" + out[-3000:])
     bad = []
-    for f in lean_sources():
+    srcs = sorted(set(f for m in modules for f in lean_sources(m)))
+    for f in srcs:
         for ln, line in enumerate(strip_comments(open(f).read()).splitlines(), 1):
             if FORBIDDEN.search(line):
                 bad.append("%s:%d: %s" % (os.path.relpath(f, LEAN), ln, line.strip()))
@@ -64,7 +79,8 @@ def proof_step(prop, theorems, module, thorough=False, pre=None):
     audit = os.path.join(LEAN, "Audit", "%s%s.lean" % (prop, ("_" + str(os.getpid())) if os.environ.get("VERIF_SCRATCH_DIR") else ""))
     os.makedirs(os.path.dirname(audit), exist_ok=True)
     with open(audit, "w") as f:
-        f.write("import %s\n" % module)
+        for m in modules:
+            f.write("import %s\n" % m)
         for t in theorems:
             f.write("#print axioms %s\n" % t)
     rc, out = sh(["lake", "env", "lean", audit])
@@ -87,10 +103,10 @@ def proof_step(prop, theorems, module, thorough=False, pre=None):
             res["discharged"] += 1
             res["axioms"][t] = ax
     if thorough and not res["failed"]:
-        rc, out = sh(["lake", "env", "leanchecker", module], timeout=3000)
+        rc, out = sh(["lake", "env", "leanchecker"] + modules, timeout=3000)
         res["leanchecker"] = "ok" if rc == 0 else out[-1500:]
         if rc != 0:
-            res["failed"].append("<leanchecker> " + module)
+            res["failed"].append("<leanchecker> " + " ".join(modules))
     return res
 
 
@@ -179,6 +195,8 @@ def main():
     tier = a.tier if a.tier in ("quick", "thorough") else "quick"
     os.chdir(VERIF)
     t0 = time.time()
+    from . import cov
+    cov.maybe_start()          # VERIF_COVERAGE=<file>: line coverage of sysloss during this run (tools/covreport.py)
     try:
         mod = importlib.import_module("harness.props.%s" % prop.lower())
     except ImportError:
@@ -189,7 +207,7 @@ def main():
     known = load_known()
     violations = []
     try:
-        pr = proof_step(prop, mod.THEOREMS, mod.MODULE, thorough=(tier == "thorough"),
+        pr = proof_step(prop, mod.THEOREMS, getattr(mod, "MODULES", None) or mod.MODULE, thorough=(tier == "thorough"),
                         pre=getattr(mod, "pre_build", None))
         if a.replay:
             data = json.load(open(a.replay))
@@ -245,7 +263,7 @@ def main():
         "property_id": prop, "tier": tier, "seed": seed, "level": "proof",
         "coverage": {
             "obligations": pr["obligations"], "discharged": pr["discharged"],
-            "checker_cmd": "cd lean && lake build %s && lake env lean Audit/%s.lean   (#print axioms on every listed theorem)" % (mod.MODULE, prop),
+            "checker_cmd": "cd lean && lake build %s && lake env lean Audit/%s.lean   (#print axioms on every listed theorem)" % (" ".join(getattr(mod, "MODULES", None) or [mod.MODULE]), prop),
             "trusted_base": ["Lean 4.33 kernel", "Mathlib v4.33", "axioms: propext, Classical.choice, Quot.sound only (audited per theorem)",
                              "hand-written Lean model tied to /repo by the correspondence run below (differential testing, not proof)",
                              "harness/ (generators, canonicalisation, comparison)"] + list(getattr(mod, "TRUSTED", [])),
